@@ -115,6 +115,28 @@ $GEN{$NG(a int)}{int}{
 	$YIELD{acc.n}
 	$RET
 }`, entries: []*Entry{drive("$NG", "int", 1, [][]int{{0}, {2}})}},
+	// the shortest loop bodies that declare something named like a variable the yielding post statement reads: two statements,
+	// one statement, and a declaration as the ONLY statement
+	{name: "short-loop-bodies-declaring-names-the-yielding-post-reads", decls: `
+$GEN{$NG(a int)}{int}{
+	for n := 0; n < 2; $YIELD{n + a} {
+		n++
+		const n = 100
+	}
+	for k := 0; k < 2; $YIELD{k * 10} {
+		k++
+		type k string
+	}
+	m := 0
+	for m < 2 {
+		m++
+		for q := m; q < 2; $YIELD{q + 50} {
+			q++
+			const q = 7
+		}
+	}
+	$RET
+}`, entries: []*Entry{drive("$NG", "int", 1, [][]int{{0}, {2}})}},
 	{name: "collection-range-variables-written-and-captured", decls: `
 $GEN{$NG(a int)}{int}{
 	xs := []int{a, a + 1, a + 2}
